@@ -14,6 +14,7 @@ R6 observation paths (mtbl_source_write, mtbl_merge's merge()) add every yielded
 R9 closure pairing (rules/closures.py): merge, dupsort and the heap comparison are each called with the closure registered with them.
 R10 heap discipline (rules/heaprule.py): for every heap size up to 5 (6 thorough) and every ordering, heapify / push / pop / replace keep the elements and the parent <= child invariant and pop / replace / peek return a minimum.
 D  rests on: C02 C02.R3 (the merge order is the order of the byte comparison) - re-run here as <id>.D.<rule>.
+R11 container contract (rules/vecrule.py): libmy/vector.h keeps its invariants, element preservation, post-conditions and memory safety in every scenario (the heap array and the merger's entry/iterator lists are these vectors).
 """
 import re
 from .common import *
@@ -401,3 +402,7 @@ def run(ctx, res):
 
     # ---- properties this one rests on (re-run here, labelled <this>.D.<rule>) ------------------
     depends(ctx, res, 'C02', ('C02.R3',), 'the merge order is the order of the byte comparison')
+
+    # ---- container contract ---------------------------------------------------------------------
+    from . import vecrule
+    vecrule.check(ctx, res, "C04.R11")
